@@ -7,7 +7,8 @@ the Coq literals small; model and implementation are compared for EACH run):
    "runs":  [{"pis":  [[slot, ...], ...]           one execution order per generation (controlled executor),
               "stor": {function name: storage id}, "stor_form": "str" | "each" | "default",
               "exec": "ctl" | "thread" | "process" | "default", "exec_form": "single" | "each" | "default",
-              "entry": "map" | "async", "seed": int (per-call delays in the real-pool modes)}, ...]}
+              "entry": "map" | "async", "seed": int (per-call delays in the real-pool modes),
+              "folder": bool (False: run_folder=None, only with dict storage)}, ...]}
 Observation: [sorted table of all distinct strings, distinct output blocks, [run observation, ...]] with
   output block    = [[Result.output, stored] per output]
   run observation = [1, index of its output block, log, dumps] | Err(class);
@@ -324,7 +325,7 @@ def _run(c, run):
         p = build_pipeline(req, log, delay_seed=None if mode == "ctl" else run.get("seed", 0))
         if real_gens(p, req) != c["gens"]:
             return Err("GenerationMismatch")
-        d = os.path.join(tmp, "run")
+        d = os.path.join(tmp, "run") if run.get("folder", True) else None
         created = []
         try:
             if mode == "ctl":
@@ -481,7 +482,7 @@ SWEEP_KINDS = ["dict", "dict", "file_array", "file_array", "mix", "mix", "shared
 
 def generate(rng, tier, mult):
     thorough = tier != "quick"
-    n_req = (80 if not thorough else 450) * mult
+    n_req = (60 if not thorough else 360) * mult
     k_random = 4 if not thorough else 10
     cases = []
     for _ in range(n_req):
@@ -495,7 +496,8 @@ def generate(rng, tier, mult):
 
         def run(pis, stor_kind, exec_, entry, exec_form=None, seed=0):
             stor, sform = _stor(rng, req, stor_kind)
-            return dict(pis=pis, stor=stor, stor_form=sform, exec=exec_, entry=entry, seed=seed,
+            folder = not (set(stor.values()) == {"dict"} and rng.random() < 0.5)   # run_folder=None: in-memory values
+            return dict(pis=pis, stor=stor, stor_form=sform, exec=exec_, entry=entry, seed=seed, folder=folder,
                         exec_form=exec_form or rng.choice(["single", "single", "each", "default"]))
 
         runs = []
@@ -553,8 +555,8 @@ def nontrivial_key(c):
         return None
     return ([mapsym.spec_str(f.get("spec")) for f in c["req"]["funcs"]],
             [v["sh"] if isinstance(v, dict) else 0 for _, v in c["req"]["inputs"]],
-            [[sorted(r["stor"].items()), r["stor_form"], r["exec"], r["exec_form"], r["entry"], r["pis"]]
-             for r in c["runs"]])
+            [[sorted(r["stor"].items()), r["stor_form"], r["exec"], r["exec_form"], r["entry"], r["pis"],
+              r.get("folder", True)] for r in c["runs"]])
 
 
 def _bucket(n):
@@ -578,6 +580,8 @@ def distribution(c):
         d["has exec_form " + k] = "yes"
     for k in sorted({r["stor_form"] for r in runs}):
         d["has stor_form " + k] = "yes"
+    if any(not r.get("folder", True) for r in runs):
+        d["has run_folder=None"] = "yes"
     return d
 
 
